@@ -100,8 +100,15 @@ class TGen:
         if is_arr(t):
             return ('arr', [self.lit(t[1]) for _ in range(r.choice([1, 2, 3]))])
         if is_obj(t):
-            return ('obj', [(k, self.lit(v)) for k, v in t[1].items()])
+            return self.dup_key(t, [(k, self.lit(v)) for k, v in t[1].items()], lambda v: self.lit(v))
         return ('null',)
+
+    def dup_key(self, t, kvs, mk):
+        """now and then an object literal writes one of its keys a second time (JavaScript: first position, last value)"""
+        if kvs and self.rng.random() < 0.15:
+            k = self.rng.choice([k for k, _ in kvs])
+            kvs = kvs + [(k, mk(t[1][k]))]
+        return ('obj', kvs)
 
     def var(self, env, pred):
         c = env.of(pred)
@@ -226,7 +233,7 @@ class TGen:
             return self.recv(env, lambda x: x == t, d) or ('arr', [E(t[1])])
         if is_obj(t):
             if r.random() < 0.5:
-                return ('obj', [(k, self.expr(env, v, d)) for k, v in t[1].items()])
+                return self.dup_key(t, [(k, self.expr(env, v, d)) for k, v in t[1].items()], lambda v: self.expr(env, v, d))
             return self.recv(env, lambda x: x == t, d) or self.lit(t)
         return ('null',)
 
